@@ -75,6 +75,7 @@ def run(ck: Checker, prog: Program, tier: str):
     from . import c12
     with ck.borrow(c12, "C11.R2+"):
         ck.guard(c12._r3, ck, prog, prog.func(c12.W), prog.func(c12.R))
+        ck.guard(c12._r5, ck, prog.func(c12.R))     # each azimuth gets its own accept masks back (members kept in file order)
 
 
 def _helpers(ck: Checker, prog: Program):
